@@ -171,6 +171,7 @@ def analyze_module(src, modname, is_init, modules):
     star_own = False
     own_star_mods = []
     alias_clash = set()
+    aliased_submodules = set()
     for st in tree.body:
         if isinstance(st, (ast.FunctionDef, ast.AsyncFunctionDef, ast.ClassDef)):
             add(st.name, {ast.FunctionDef: "def", ast.AsyncFunctionDef: "async", ast.ClassDef: "class"}[type(st)])
@@ -217,10 +218,14 @@ def analyze_module(src, modname, is_init, modules):
                 n = a.asname or a.name
                 if own:
                     add(n, "submodule" if (absname + "." + a.name) in modules else "import_own")
+                    if (absname + "." + a.name) in modules and a.asname and (absname + "." + a.asname) not in modules:
+                        aliased_submodules.add(n)
                     if (absname + "." + a.name) not in modules and a.asname and (absname + "." + a.asname) in modules:
                         alias_clash.add(n)
                 elif selfimp:
                     add(n, "submodule" if (absname + "." + a.name) in modules else "self_import")
+                    if (absname + "." + a.name) in modules and a.asname and (absname + "." + a.asname) not in modules:
+                        aliased_submodules.add(n)
                 else:
                     add(n, "import_foreign")
         else:
@@ -235,7 +240,8 @@ def analyze_module(src, modname, is_init, modules):
                 if isinstance(n, ast.Attribute) and isinstance(n.value, ast.Name) and n.value.id == "__all__":
                     allst = ["dyn"]
     return dict(kinds={n: sorted(k) for n, k in kinds.items()}, all=allst, star_own=star_own,
-                own_star_mods=own_star_mods, alias_clash=sorted(alias_clash))
+                own_star_mods=own_star_mods, alias_clash=sorted(alias_clash),
+                aliased_submodules=sorted(aliased_submodules))
 
 
 REQUIRED_KINDS = {"def", "async", "class", "assign", "tuple", "ann", "import_own", "own_star"}
@@ -451,8 +457,8 @@ class C19(Prop):
         ("bin/collect-exports", None),
         ("bin/replace-star-imports", None),
     ]
-    quick_cases = 600
-    thorough_cases = 12000
+    quick_cases = 1000
+    thorough_cases = 30000
     quick_deadline_s = 60
     thorough_deadline_s = 600
     rule = ("universes of generated module files in a fresh directory on sys.path (plain module, package __init__, module in a "
@@ -468,6 +474,47 @@ class C19(Prop):
     families = {}
 
     # -- generation ------------------------------------------------------------------------
+    # exhaustive small scope: every ordered pair of these statements as the whole target module, as a plain
+    # module and as a package __init__ (quick: a sample of the pairs)
+    TEMPLATES = [
+        "def a():\n    return 1", "async def a():\n    return 1", "class a:\n    pass", "a = [1]", "a = b = [1]",
+        "a, b = [1], [2]", "a: int = [3]", "a: int", "_a = [1]", "b = [0]\nb += [1]",
+        "import os", "import os as a", "from os.path import join as a", "from {F} import fz", "from {F} import *",
+        "from {P}.sub import sx", "from {P}.sub import sy as a", "from {P} import sub", "import {P}.sub",
+        "__all__ = ['a']", "__all__ = ('a', 'b')", "__all__ = ['_a', 'a']", "__all__ = []", "__all__ += ['b']",
+        "__all__ = ['a'] + ['b']", "__all__ += list(('b',))", "__all__: list = ['a']", "__all__ = ['a', 1]",
+        "if True:\n    a = [1]", "try:\n    b = [1]\nexcept Exception:\n    b = None", "pass",
+    ]
+    INIT_ONLY = ["from .sub import sx", "from .sub import sy as a", "from . import sub", "from .sub import *",
+                 "from .sp import leaf", "from .sp import spx as leaf", "from .sp.leaf import lf as b"]
+
+    def exhaustive_cases(self, tier, rng):
+        import itertools
+        out = []
+        for kind in ("plain", "init"):
+            T = self.TEMPLATES + (self.INIT_ONLY if kind == "init" else [])
+            pairs = list(itertools.product(range(len(T)), repeat=2))
+            if tier != "thorough":
+                pairs = rng.sample(pairs, 120)
+            for n, (i, j) in enumerate(pairs):
+                tag = "e%s%03d%03d" % (kind[0], i, j)
+                u = gen_c19.U(tag)
+                src = "\n".join(T[k].replace("{F}", u.F).replace("{P}", u.P) for k in (i, j)) + "\n"
+                try:
+                    compile(src, "<t>", "exec")
+                except SyntaxError:
+                    continue
+                files = {u.P + "/__init__.py": "", u.P + "/sub.py": gen_c19.SUB_SRC, u.P + "/sp/__init__.py": "spx = ['spx']\n",
+                         u.P + "/sp/leaf.py": gen_c19.LEAF_SRC, u.F + ".py": gen_c19.FOREIGN_SRC, u.M + ".py": "pm = 1\n"}
+                files[u.target_path(kind)] = src
+                t = u.target_name(kind)
+                reads = [x for x in ("a", "b", "sx", "fz", "leaf", "sub", "os") if rng.random() < 0.5]
+                # only names the module can provide at all
+                reads = [x for x in reads if ("%s" % x) in src]
+                program = "from %s import *\n\n_r = (%s)\n" % (t, "".join(r + ", " for r in reads))
+                out.append(dict(files=files, targets=[t], program=program, reads=reads, kind=kind, cli=False))
+        return out
+
     def gen_case(self, rng, i, tier):
         tag = "%06x" % rng.getrandbits(24)
         r = rng.random()
@@ -649,7 +696,13 @@ class C19(Prop):
                 new_imports = top_imports(new)
             except SyntaxError as e:
                 if cpy.get("program", {}).get("orig_err") is None:
-                    fails.append(dict(what="replace-output-does-not-parse", new=new[:300], program=case["program"]))
+                    by_ann = False
+                    for t in case["targets"]:
+                        ok_, _, an_ = self.inspectable(case, t)
+                        if ok_ and an_["all"] and an_["all"][0] == "lit" and an_["all"][2]:
+                            by_ann = True
+                    fails.append(dict(what="replace-output-does-not-parse", new=new[:300], program=case["program"],
+                                      all_by_annassign=by_ann))
                 new_imports = None
         analyses = {}
         for t in case["targets"]:
@@ -709,6 +762,10 @@ class C19(Prop):
                     fails.append(dict(what="export-not-bound-at-top-level", target=t, name=n))
                 elif k <= {"import_foreign"}:
                     fails.append(dict(what="export-merely-imported-from-elsewhere", target=t, name=n))
+                elif "submodule" in k and k <= {"import_foreign", "submodule"}:
+                    # a submodule object is neither a def/class/assigned name nor a name re-exported *from* a submodule
+                    fails.append(dict(what="export-is-submodule-object", target=t, name=n,
+                                      aliased=(n in an["aliased_submodules"])))
                 if n.isidentifier() and not fi.get(n, "").startswith(("ok", "module")):
                     fails.append(dict(what="export-not-importable", target=t, name=n, cpython=fi.get(n)))
             for n, k in sorted(kinds.items()):
@@ -720,7 +777,7 @@ class C19(Prop):
                                       alias_clash=(n in an["alias_clash"])))
         # the program: every name it reads stays bound to the same object
         pr = cpy.get("program", {})
-        if new is not None and pr.get("orig_err") is None and "same" in pr:
+        if new is not None and new_imports is not None and pr.get("orig_err") is None and "same" in pr:
             if pr.get("new_err") is not None:
                 lost = self._name_of_nameerror(pr["new_err"])
                 fails.append(dict(what="program-breaks-after-replacement", err=pr["new_err"], name=lost,
@@ -764,7 +821,10 @@ class C19(Prop):
     def _why(self, name, case, analyses, cpy, obs):
         """for a name the program lost: how each star-imported target binds it (oracle's own analysis) and
         which import statements of the program's import block bind it"""
-        out = {"targets": {}, "binders": [], "kept_star_binds": False}
+        out = {"targets": {}, "binders": [], "kept_star_binds": False,
+               "all_by_ann_targets": [t for t in case["targets"]
+                                      if analyses.get(t) and analyses[t]["all"] and analyses[t]["all"][0] == "lit"
+                                      and analyses[t]["all"][2]]}
         if name is None:
             return out
         new_imps = []
@@ -813,8 +873,12 @@ class C19(Prop):
                 items = abstract_items(case["files"][rel])
             except SyntaxError:
                 continue
+            ex_mods = mods
+            if is_init and not obs["cpy"]["targets"].get(t, {}).get("import_ok"):
+                # `ModuleHandle(pkg.x).exists` imports pkg; when that raises, nothing below pkg "exists"
+                ex_mods = [m for m in mods if not m.startswith(t + ".")]
             reqs.append(dict(op="exports", variant=variant, self=t.split("."), isInit=is_init,
-                             exists=[m.split(".") for m in mods], items=items, _t=t))
+                             exists=[m.split(".") for m in ex_mods], items=items, _t=t))
         if obs.get("new") is not None:
             try:
                 blk = leading_import_block(case["program"])
@@ -900,11 +964,15 @@ def fam_d8_forms(case, f):
     if w == "export-missing":
         r = _req(f.get("kinds"))
         return bool(r) and r <= D8_KINDS
-    if w in ("exports-differ-from-literal-__all__", "exports-raised-on-inspectable-module"):
+    if w in ("exports-differ-from-literal-__all__", "exports-raised-on-inspectable-module",
+             "replace-output-does-not-parse"):
         return bool(f.get("all_by_annassign"))
     if w in PROGRAM_FAILS:
+        if f.get("name") is None and f.get("why", {}).get("all_by_ann_targets"):
+            # the rewritten program fails inside the import itself: stale entries of an overridden __all__
+            return True
         for t, d in f.get("why", {}).get("targets", {}).items():
-            if d.get("exported") or d.get("exports_state") == "err" or f.get("name", "_").startswith("_"):
+            if d.get("exported") or d.get("exports_state") == "err" or (f.get("name") or "_").startswith("_"):
                 continue
             if d.get("all") == "lit":
                 if d.get("all_by_ann"):
@@ -953,6 +1021,8 @@ def fam_alias_probe(case, f):
     """D31: `from .sub import name as alias` where `<pkg>.sub.alias` happens to be a module: the re-exported
     name `alias` is dropped (the submodule test probes the alias instead of the imported name)."""
     w = f.get("what")
+    if w == "export-is-submodule-object":
+        return bool(f.get("aliased"))
     if w == "export-missing":
         return bool(f.get("alias_clash")) and _req(f.get("kinds")) == {"import_own"}
     if w in PROGRAM_FAILS:
